@@ -2,7 +2,7 @@
 
    Model: theories/TagApi.v (AddTag, DelTag, UpdateTag with its six exported operations,
    inheritTagUncertainty, written after internal/index/manager/manager.go with
-   fixes/C11-1..3 applied).  [parse] is query.Parse as an arbitrary function: every theorem
+   fixes/C11-1..4 applied).  [parse] is query.Parse as an arbitrary function: every theorem
    holds for every parser.  Results: Ok | Err e | Crash (nil dereference in the service
    loop) | Hang (a loop of the service goroutine that does not end).  *)
 From Coq Require Import List String NArith.
@@ -67,6 +67,15 @@ Theorem c11_referenced_tag_not_renamable :
   forall st nm nn st' b tb, wf_tags (tags st) -> nn <> "" -> update_name st nm nn = (Ok, st') ->
     get (tags st) b = Some tb -> ~ In nm (refs tb).
 Proof. exact rename_guard. Qed.
+
+(* 5b. Converters are only attached to tags that attachConverterToTag accepts (no data filter, no tag
+       reference) -- after EVERY history, so manager.New can attach every saved converter again
+       (fixes/C11-4 closed the query-update path). *)
+Theorem c11_converters_only_on_attachable_tags :
+  forall parse cv next (cs : list call) k t,
+    get (tags (run parse (init_state cv next) cs)) k = Some t ->
+    nonempty (t_convs t) = true -> complex t = false.
+Proof. exact history_conv_ok. Qed.
 
 (* 6. inheritTagUncertainty terminates on every well-formed table within |tags| passes and
       only changes the uncertain sets. *)
